@@ -9,6 +9,7 @@ import PercevalModel.Lemmas.C03
 import PercevalModel.Lemmas.C03Mass
 import PercevalModel.Lemmas.C03More
 import PercevalModel.Lemmas.C03Dm
+import PercevalModel.Lemmas.C03Prec
 import PercevalModel.Props.C02
 import Mathlib.LinearAlgebra.Matrix.ConjTranspose
 
@@ -1199,6 +1200,310 @@ example : svNorm2 [⟨1, [[1, 0], [0, 0]]⟩, ⟨⟨0, 1⟩, [[1, 0], [0, 1]]⟩
 
 /-- `sameKey_equal_distributions`: `|1,0⟩` and `3·|1,0⟩` are one key -/
 example : sameKey ⟨1 / 2, [⟨1, [[1, 0]]⟩]⟩ ⟨1 / 3, [⟨3, [[1, 0]]⟩]⟩ = true := by decide +kernel
+
+/-! ## 10. a NON-ZERO precision, end to end: "up to the configured precision" as a theorem
+
+`Simulator.probs_svd` at precision `prec` (`probsSvd U prec minp`) against the same call at precision 0 — which
+is the specification mixture (`probsSvd_exact`).  Three stages leave something out, each computed exactly by the
+model (`Model/C03Prec.lean`): `_preprocess_svd` (members and accumulated sectors at or below the relative
+threshold, before and after the split: `preDropped`, `trimAt`, `trimMass`), the product threshold of
+`list_tensor_product` on the fast path (an incoherent loss: `get (memberFast 0) − get (memberFast θ)`), the
+amplitude threshold of `_merge_sv` on the generic path (a coherent loss: per annotated output the dropped amplitude
+`l` next to the kept one `b` changes the probability by at most `|l|² + 2·|b|·|l|`, `keyErr`).  `errAt t` /
+`errTot` add them up with the members' weights; the final `res.normalize()` gives `errNormAt`. -/
+
+/-- a kept member at threshold 0 is the specification, on either path -/
+theorem memberAt_zero_eq_spec {m : ℕ} (U : Matrix (Fin m) (Fin m) GQ) (sup : Bool) (mb : Member)
+    (hok : TermsOK m mb) (hone : sup = false → ¬ (mb.terms.length > 1)) (t : Fock) :
+    get (memberAt U sup 0 mb) t = get (probsSV U mb.terms) t := by
+  have hl : ∀ t ∈ mb.terms, ∀ s ∈ t.groups, s.length = m := fun t ht => (hok t ht).2
+  unfold memberAt
+  cases sup with
+  | true => rw [if_pos rfl, memberGenericθ_zero U mb hl, memberGeneric_eq_spec]
+  | false =>
+    rw [if_neg (by simp)]
+    obtain ⟨w, terms⟩ := mb
+    match terms, hone rfl, hok with
+    | [], _, _ => rfl
+    | [term], _, hk =>
+      rw [← memberGeneric_fock_eq_memberFast U w term (hk term List.mem_cons_self).1,
+        memberGeneric_eq_spec]
+    | _ :: _ :: _, hlen, _ => exact absurd (by simp) hlen
+
+/-- **`_preprocess_svd` at ANY precision**: what it keeps and what it leaves out (`preDropped`) add up to the
+input mixture for every outcome; the lost probability `trimAt` is non-negative and sums to at most `trimMass`
+over any set of outcomes.  Generalises `preprocess_preserves_mixture` (precision 0: nothing is left out). -/
+theorem preprocess_split {m : ℕ} (U : Matrix (Fin m) (Fin m) GQ) (prec minp : ℚ) (ms : List Member)
+    (hw : ∀ mb ∈ ms, 0 ≤ mb.w) (t : Fock) :
+    mixAt (probsSV U) ms t = mixAt (probsSV U) (preprocess prec minp ms).kept t + trimAt U prec minp ms t ∧
+      0 ≤ trimAt U prec minp ms t ∧
+      ∀ S : Finset Fock, ∑ t ∈ S, trimAt U prec minp ms t ≤ trimMass U prec minp ms := by
+  have hnn : ∀ ts : List Term, NonNeg (probsSV U ts) := by
+    intro ts e he
+    obtain ⟨p, _, rfl⟩ := List.mem_map.1 he
+    exact div_nonneg (div_nonneg (normSq_nonneg _) (Nat.cast_nonneg _)) (svNorm2_nonneg _)
+  have hd := preDropped_nonneg prec minp ms hw
+  refine ⟨preprocess_split_mixture U prec minp ms hw t, ?_, ?_⟩
+  · unfold trimAt mixAt
+    apply List.sum_nonneg
+    intro x hx
+    obtain ⟨mb, hmb, rfl⟩ := List.mem_map.1 hx
+    exact mul_nonneg (hd mb hmb) (get_nonneg _ (hnn _) t)
+  · intro S
+    unfold trimAt trimMass mixAt mixMass
+    rw [sum_list_finset_comm]
+    apply list_sum_le_sum
+    intro mb hmb
+    rw [← Finset.mul_sum]
+    exact mul_le_mul_of_nonneg_left (sum_get_le_mass _ (hnn _) S) (hd mb hmb)
+
+/-- **the product threshold of `list_tensor_product` (fast path) only loses probability**: at every threshold
+`θ ≥ 0` the member's distribution is a sub-list of the un-thresholded one, so every outcome loses a non-negative
+amount and any set of outcomes at most the difference of the total masses -/
+theorem fast_threshold_loss {m : ℕ} (U : Matrix (Fin m) (Fin m) GQ) {θ : ℚ} (hθ : 0 ≤ θ) (mb : Member)
+    (hw : 0 ≤ mb.w) :
+    (memberFast U θ mb).Sublist (memberFast U 0 mb) ∧
+    (∀ t, 0 ≤ get (memberFast U 0 mb) t - get (memberFast U θ mb) t) ∧
+    ∀ S : Finset Fock, ∑ t ∈ S, (get (memberFast U 0 mb) t - get (memberFast U θ mb) t) ≤
+      mass (memberFast U 0 mb) - mass (memberFast U θ mb) :=
+  ⟨memberFast_sublist U hθ mb hw,
+    sublist_loss (memberFast_sublist U hθ mb hw) (nonneg_memberFast U 0 mb)⟩
+
+/-- **the amplitude threshold of `_merge_sv` (generic path), propagated to the probabilities**: the member's
+probability of every outcome changes by at most the sum, over the annotated outputs `k` of that outcome, of
+`λ_k + 2·√β_k·√λ_k` — `λ_k` the squared modulus of the amplitude left out of `k`, `β_k` the probability computed
+from what was kept (both on the probability scale, square roots rounded up to 10⁻¹⁵) — and over any set of outcomes
+by at most the total of these bounds -/
+theorem generic_threshold_loss {m : ℕ} (U : Matrix (Fin m) (Fin m) GQ) (θ : ℚ) (mb : Member) :
+    (∀ t, |get (memberGenericθ U 0 mb) t - get (memberGenericθ U θ mb) t| ≤ get (genericErrD U θ mb) t) ∧
+    ∀ S : Finset Fock, ∑ t ∈ S, get (genericErrD U θ mb) t ≤ mass (genericErrD U θ mb) :=
+  ⟨generic_threshold_bound U θ mb, generic_err_total U θ mb⟩
+
+/-- one member, either path: `memberErrAt` bounds the change per outcome, `memberErrTot` over any set -/
+theorem member_threshold_loss {m : ℕ} (U : Matrix (Fin m) (Fin m) GQ) (sup : Bool) {θ : ℚ} (hθ : 0 ≤ θ)
+    (mb : Member) (hw : 0 ≤ mb.w) :
+    (∀ t, |get (memberAt U sup 0 mb) t - get (memberAt U sup θ mb) t| ≤ memberErrAt U sup θ mb t) ∧
+    ∀ S : Finset Fock, ∑ t ∈ S, memberErrAt U sup θ mb t ≤ memberErrTot U sup θ mb := by
+  unfold memberAt memberErrAt memberErrTot
+  cases sup with
+  | true => simpa using generic_threshold_loss U θ mb
+  | false =>
+    obtain ⟨_, h1, h2⟩ := fast_threshold_loss U hθ mb hw
+    simp only [Bool.false_eq_true, if_false]
+    exact ⟨fun t => by rw [abs_of_nonneg (h1 t)], h2⟩
+
+/-- the un-normalised result of `probs_svd`: every outcome gets `∑_{kept} w · (member's distribution at θ)` -/
+theorem rawSvd_get {m : ℕ} (U : Matrix (Fin m) (Fin m) GQ) (prec minp : ℚ) (ms : List Member) (t : Fock) :
+    get (rawSvd U prec minp ms) t = ((preprocess prec minp ms).kept.map fun mb =>
+      mb.w * get (memberAt U (preprocess prec minp ms).superposed (preprocess prec minp ms).θ mb) t).sum := by
+  unfold rawSvd
+  simp only
+  rw [(mixture_convex _).1 t, List.map_map]
+  rfl
+
+/-- … and at precision 0 that is the specification mixture `∑ᵢ wᵢ · probsSV(memberᵢ)` itself -/
+theorem rawSvd_zero {m : ℕ} (U : Matrix (Fin m) (Fin m) GQ) (ms : List Member)
+    (hw : ∀ mb ∈ ms, 0 ≤ mb.w) (hok : ∀ mb ∈ ms, TermsOK m mb) (t : Fock) :
+    get (rawSvd U 0 0 ms) t = mixAt (probsSV U) ms t := by
+  obtain ⟨hmix, hθ⟩ := preprocess_preserves_mixture U ms hw t
+  rw [rawSvd_get, ← hmix, hθ]
+  unfold mixAt
+  congr 1
+  apply List.map_congr_left
+  intro mb hmb
+  congr 1
+  apply memberAt_zero_eq_spec U _ mb ((preprocess_kept_facts m 0 0 ms hok mb hmb).1)
+  intro hs hgt
+  rw [preprocess_superposed] at hs
+  have : (preprocess 0 0 ms).kept.any (·.terms.length > 1) = true :=
+    List.any_eq_true.2 ⟨mb, hmb, by simpa using hgt⟩
+  rw [this] at hs
+  cases hs
+
+/-- **the un-normalised error of a non-zero precision**: for every mixture with non-negative weights and
+well-formed terms, every precision `prec ≥ 0` and every `min_p`, the un-normalised `probs_svd` differs from the
+precision-0 result (= the specification mixture) by at most `errAt` for every outcome — the exactly computed
+probability lost with the trimmed members plus the weighted threshold losses of the kept ones — and `errAt` sums to
+at most `errTot` over any set of outcomes -/
+theorem probsSvd_raw_error {m : ℕ} (U : Matrix (Fin m) (Fin m) GQ) (prec minp : ℚ) (hp : 0 ≤ prec)
+    (ms : List Member) (hw : ∀ mb ∈ ms, 0 ≤ mb.w) (hok : ∀ mb ∈ ms, TermsOK m mb) :
+    (∀ t, |get (rawSvd U prec minp ms) t - get (rawSvd U 0 0 ms) t| ≤ errAt U prec minp ms t) ∧
+    ∀ S : Finset Fock, ∑ t ∈ S, errAt U prec minp ms t ≤ errTot U prec minp ms := by
+  have hθ := preprocess_theta_nonneg prec minp hp ms
+  have hk := preprocess_kept_facts m prec minp ms hok
+  have hkw : ∀ mb ∈ (preprocess prec minp ms).kept, 0 ≤ mb.w := fun mb hmb => (hθ.trans_lt (hk mb hmb).2).le
+  constructor
+  · intro t
+    obtain ⟨hsplit, htrim0, _⟩ := preprocess_split U prec minp ms hw t
+    rw [rawSvd_zero U ms hw hok, hsplit, rawSvd_get]
+    unfold errAt mixAt
+    simp only
+    have hspec : ((preprocess prec minp ms).kept.map fun mb => mb.w * get (probsSV U mb.terms) t) =
+        (preprocess prec minp ms).kept.map fun mb =>
+          mb.w * get (memberAt U (preprocess prec minp ms).superposed 0 mb) t := by
+      apply List.map_congr_left
+      intro mb hmb
+      rw [memberAt_zero_eq_spec U _ mb (hk mb hmb).1]
+      intro hs hgt
+      rw [preprocess_superposed] at hs
+      have : (preprocess prec minp ms).kept.any (·.terms.length > 1) = true :=
+        List.any_eq_true.2 ⟨mb, hmb, by simpa using hgt⟩
+      rw [this] at hs
+      cases hs
+    rw [hspec]
+    have hdiff : ∀ (l : List Member) (f g : Member → ℚ),
+        (l.map f).sum - ((l.map g).sum + trimAt U prec minp ms t) =
+          (l.map fun mb => f mb - g mb).sum - trimAt U prec minp ms t := by
+      intro l f g
+      have : (l.map fun mb => f mb - g mb).sum = (l.map f).sum - (l.map g).sum := by
+        induction l with
+        | nil => simp
+        | cons x r ih => simp only [List.map_cons, List.sum_cons, ih]; ring
+      rw [this]; ring
+    rw [hdiff]
+    refine (abs_sub _ _).trans ?_
+    rw [abs_of_nonneg htrim0, add_comm]
+    apply add_le_add le_rfl
+    refine (abs_list_sum_le _ _).trans (list_sum_le_sum _ _ _ fun mb hmb => ?_)
+    rw [← mul_sub, abs_mul, abs_of_nonneg (hkw mb hmb)]
+    apply mul_le_mul_of_nonneg_left _ (hkw mb hmb)
+    rw [abs_sub_comm]
+    exact (member_threshold_loss U _ hθ mb (hkw mb hmb)).1 t
+  · intro S
+    unfold errAt errTot
+    simp only
+    rw [Finset.sum_add_distrib, sum_list_finset_comm]
+    apply add_le_add ((preprocess_split U prec minp ms hw []).2.2 S)
+    apply list_sum_le_sum
+    intro mb hmb
+    rw [← Finset.mul_sum]
+    exact mul_le_mul_of_nonneg_left ((member_threshold_loss U _ hθ mb (hkw mb hmb)).2 S) (hkw mb hmb)
+
+/-- **`probs_svd` at a non-zero precision vs. the specification, normalisation included**: when neither result
+is empty, (a) the total un-normalised masses differ by at most `errTot`; (b) for every outcome the reported
+probability differs from the precision-0 one — the normalised specification mixture, `probsSvd_exact` — by at most
+`errNormAt = (errAt t + P(t)·errTot) / mass`; (c) over any set of outcomes (total variation × 2) by at most
+`2·errTot / mass`, `mass` = the un-normalised total at the given precision. -/
+theorem probsSvd_precision_bound {m : ℕ} (U : Matrix (Fin m) (Fin m) GQ) (prec minp : ℚ) (hp : 0 ≤ prec)
+    (ms : List Member) (hw : ∀ mb ∈ ms, 0 ≤ mb.w) (hok : ∀ mb ∈ ms, TermsOK m mb)
+    (h0 : mass (rawSvd U 0 0 ms) ≠ 0) (hθ : mass (rawSvd U prec minp ms) ≠ 0) :
+    |mass (rawSvd U prec minp ms) - mass (rawSvd U 0 0 ms)| ≤ errTot U prec minp ms ∧
+    (∀ t, |get (probsSvd U prec minp ms) t - get (probsSvd U 0 0 ms) t| ≤ errNormAt U prec minp ms t) ∧
+    ∀ S : Finset Fock, ∑ t ∈ S, |get (probsSvd U prec minp ms) t - get (probsSvd U 0 0 ms) t| ≤
+      2 * errTot U prec minp ms / mass (rawSvd U prec minp ms) := by
+  obtain ⟨hpt, hS⟩ := probsSvd_raw_error U prec minp hp ms hw hok
+  have hnn : ∀ (pr mp : ℚ), 0 ≤ pr → ∀ t, 0 ≤ get (rawSvd U pr mp ms) t := by
+    intro pr mp hpr t
+    rw [rawSvd_get]
+    apply List.sum_nonneg
+    intro x hx
+    obtain ⟨mb, hmb, rfl⟩ := List.mem_map.1 hx
+    have hk := preprocess_kept_facts m pr mp ms hok mb hmb
+    refine mul_nonneg ((preprocess_theta_nonneg pr mp hpr ms).trans_lt hk.2).le ?_
+    unfold memberAt
+    split
+    · exact get_nonneg _ (nonneg_memberGenericθ U _ mb) t
+    · exact get_nonneg _ (nonneg_memberFast U _ mb) t
+  exact normalize_perturb (rawSvd U 0 0 ms) (rawSvd U prec minp ms) (errAt U prec minp ms)
+    (errTot U prec minp ms) (hnn 0 0 le_rfl) (hnn prec minp hp) hpt hS h0 hθ
+
+/-- … against the specification itself: the reported probability of every outcome is within `errNormAt` of the
+normalised mixture `∑ᵢ wᵢ · probsSV(memberᵢ)` -/
+theorem probsSvd_precision_vs_spec {m : ℕ} (U : Matrix (Fin m) (Fin m) GQ) (prec minp : ℚ) (hp : 0 ≤ prec)
+    (ms : List Member) (hw : ∀ mb ∈ ms, 0 ≤ mb.w) (hok : ∀ mb ∈ ms, TermsOK m mb)
+    (h0 : mass (rawSvd U 0 0 ms) ≠ 0) (hθ : mass (rawSvd U prec minp ms) ≠ 0) (t : Fock) :
+    |get (probsSvd U prec minp ms) t - get (normalize (probsSVD U (ms.map fun mb => (mb.w, mb.terms)))) t| ≤
+      errNormAt U prec minp ms t := by
+  rw [← probsSvd_exact U ms hw hok t]
+  exact (probsSvd_precision_bound U prec minp hp ms hw hok h0 hθ).2.1 t
+
+/-- **… for a unitary circuit**: well-formed members (pairwise distinct basis states, non-zero coefficients),
+weights summing to 1 and a total bound `errTot < 1` — nothing else: the reported probability of every outcome is
+within `errNormAt` of `∑ᵢ wᵢ · probsSV(memberᵢ)` itself, and over any set of outcomes within
+`2·errTot / (1 − errTot)`; the un-normalised total is at least `1 − errTot` -/
+theorem probsSvd_precision_bound_unitary {m : ℕ} (U : Matrix (Fin m) (Fin m) GQ) (hU : IsUnitary U)
+    (prec minp : ℚ) (hp : 0 ≤ prec) (ms : List Member) (hw : ∀ mb ∈ ms, 0 ≤ mb.w)
+    (hok : ∀ mb ∈ ms, TermsOK m mb) (hnd : ∀ mb ∈ ms, (mb.terms.map (·.groups)).Nodup ∧ mb.terms ≠ [])
+    (hsum : (ms.map (·.w)).sum = 1) (hsmall : errTot U prec minp ms < 1) :
+    1 - errTot U prec minp ms ≤ mass (rawSvd U prec minp ms) ∧
+    (∀ t, |get (probsSvd U prec minp ms) t - (ms.map fun mb => mb.w * get (probsSV U mb.terms) t).sum| ≤
+      errNormAt U prec minp ms t) ∧
+    ∀ S : Finset Fock,
+      ∑ t ∈ S, |get (probsSvd U prec minp ms) t - (ms.map fun mb => mb.w * get (probsSV U mb.terms) t).sum| ≤
+        2 * errTot U prec minp ms / (1 - errTot U prec minp ms) := by
+  have hone : mass (probsSVD U (ms.map fun mb => (mb.w, mb.terms))) = 1 := by
+    apply probsSVD_mass_one U hU
+    · intro p hp
+      obtain ⟨mb, hmb, rfl⟩ := List.mem_map.1 hp
+      refine ⟨fun t ht => (hok mb hmb t ht).2, (hnd mb hmb).1, ?_⟩
+      obtain ⟨t0, ht0⟩ := List.exists_mem_of_ne_nil _ (hnd mb hmb).2
+      exact svNorm2_ne_zero _ ⟨t0, ht0, (hok mb hmb t0 ht0).1⟩
+    · rw [List.map_map]; exact hsum
+  have heqv : Eqv (rawSvd U 0 0 ms) (probsSVD U (ms.map fun mb => (mb.w, mb.terms))) := by
+    intro t
+    rw [rawSvd_zero U ms hw hok t]
+    unfold probsSVD mixAt
+    rw [get_mix, List.map_map, List.map_map]
+    rfl
+  have hm0 : mass (rawSvd U 0 0 ms) = 1 := by rw [mass_congr heqv, hone]
+  obtain ⟨hpt, hS⟩ := probsSvd_raw_error U prec minp hp ms hw hok
+  have hmass := mass_perturb _ _ _ _ hpt hS
+  rw [hm0] at hmass
+  have hlow : 1 - errTot U prec minp ms ≤ mass (rawSvd U prec minp ms) := by
+    have := (abs_le.1 hmass).1; linarith
+  have hpos : 0 < mass (rawSvd U prec minp ms) := by linarith
+  obtain ⟨_, h2, h3⟩ := probsSvd_precision_bound U prec minp hp ms hw hok (by rw [hm0]; exact one_ne_zero)
+    (ne_of_gt hpos)
+  have hE0 : 0 ≤ errTot U prec minp ms := by simpa using hS ∅
+  have hspec : ∀ t, get (probsSvd U 0 0 ms) t = (ms.map fun mb => mb.w * get (probsSV U mb.terms) t).sum :=
+    probsSvd_exact_unitary U hU ms hw hok hnd hsum
+  refine ⟨hlow, fun t => by rw [← hspec t]; exact h2 t, fun S => ?_⟩
+  simp only [← hspec]
+  refine (h3 S).trans ?_
+  exact div_le_div_of_nonneg_left (mul_nonneg (by norm_num) hE0) (by linarith) hlow
+
+/-- the list the driver evaluates (every member visited once) carries exactly the bounds of the theorems above -/
+theorem errD_spec {m : ℕ} (U : Matrix (Fin m) (Fin m) GQ) (prec minp : ℚ) (ms : List Member) :
+    (∀ t, get (errD U prec minp ms) t = errAt U prec minp ms t) ∧
+      mass (errD U prec minp ms) = errTot U prec minp ms :=
+  ⟨errD_get U prec minp ms, errD_mass U prec minp ms⟩
+
+/-! non-vacuity of section 10.  The hypotheses on the masses involve permanents, which the kernel does not
+evaluate: that they hold together with a non-zero bound is witnessed on every run by the correspondence (the
+driver evaluates them for every default-precision case: required branch `prec-theorem-applies`).  Here: a mixture
+satisfying the decidable hypotheses for which `_preprocess_svd` at the default precision does leave out a member
+(weight 1/10⁷ ≤ 10⁻⁶ · 9999999/10⁷). -/
+example :
+    let ms : List Member := [⟨9999999 / 10000000, [⟨1, [[1, 0]]⟩]⟩, ⟨1 / 10000000, [⟨1, [[0, 1]]⟩]⟩]
+    (0 : ℚ) ≤ 1 / 1000000 ∧ (∀ mb ∈ ms, 0 ≤ mb.w) ∧ (∀ mb ∈ ms, TermsOK 2 mb) ∧
+    (∀ mb ∈ ms, (mb.terms.map (·.groups)).Nodup ∧ mb.terms ≠ []) ∧ (ms.map (·.w)).sum = 1 ∧
+    (preDropped (1 / 1000000) 0 ms).length = 1 ∧ ((preprocess (1 / 1000000) 0 ms).kept).length = 1 := by
+  intro ms
+  refine ⟨by norm_num, ?_, ?_, ?_, by norm_num [ms], by decide +kernel, by decide +kernel⟩
+  · intro mb hmb
+    simp only [ms, List.mem_cons, List.not_mem_nil, or_false] at hmb
+    rcases hmb with rfl | rfl <;> norm_num
+  · intro mb hmb
+    simp only [ms, List.mem_cons, List.not_mem_nil, or_false] at hmb
+    rcases hmb with rfl | rfl
+    all_goals
+      intro t ht
+      simp only [List.mem_cons, List.not_mem_nil, or_false] at ht
+      subst ht
+      refine ⟨by decide, ?_⟩
+      intro s hs
+      simp only [List.mem_cons, List.not_mem_nil, or_false] at hs
+      subst hs
+      rfl
+  · intro mb hmb
+    simp only [ms, List.mem_cons, List.not_mem_nil, or_false] at hmb
+    rcases hmb with rfl | rfl
+    · exact ⟨by decide, by simp⟩
+    · exact ⟨by decide, by simp⟩
+
+/-- `sqrtUp`: an upper square root (`normSq_sub_bound` needs only this), exact to 10⁻¹⁵ on an example -/
+example : sqrtUp (1 / 4) = 500000000000001 / 1000000000000000 ∧ sqrtUp 0 = 0 := by
+  constructor <;> decide +kernel
 
 /-!
 Not proved here (validated by the correspondence on every run):
